@@ -223,6 +223,9 @@ func (s *Sim) Deliver(k Kind) bool {
 	if inf == nil || len(s.Store.pending[k]) == 0 {
 		return false
 	}
+	if k == KPVC && s.claimGroupInFlight() {
+		return false
+	}
 	ev := s.Store.pending[k][0]
 	s.Store.pending[k] = s.Store.pending[k][1:]
 	inf.apply(ev, false)
@@ -235,6 +238,9 @@ func (s *Sim) Deliver(k Kind) bool {
 func (s *Sim) Relist(k Kind) {
 	inf := s.informer(k)
 	if inf == nil {
+		return
+	}
+	if k == KPVC && s.claimGroupInFlight() {
 		return
 	}
 	s.Store.pending[k] = nil
@@ -351,3 +357,16 @@ var _ = apierrors.IsNotFound
 var _ = v1.PodRunning
 var _ = appsv1.ControllerRevision{}
 var _ = asv1.StatefulSet{}
+
+// claimGroupInFlight reports whether a worker is parked inside the claim loop of
+// a CreateStatefulPod. The code under test walks the claims of a pod in map
+// order, interleaving cache lookups with creates; the claim cache is frozen for
+// that span so that the walk order cannot influence the run (DESIGN.md §3.7).
+func (s *Sim) claimGroupInFlight() bool {
+	for _, w := range s.ParkedWorkers() {
+		if w.pending.Kind == KPVC && w.pending.Verb == "create" {
+			return true
+		}
+	}
+	return false
+}
